@@ -726,6 +726,29 @@ pub fn shrink_candidates(sc: &RenderScenario) -> Vec<RenderScenario> {
         let mut c = sc.clone();
         c.faults = FaultSpec::None;
         out.push(c);
+        // ... or one explicit, early fault instead of the sampled / enumerated plan
+        for t in 0..sc.targets.len().min(4) {
+            for cx in 0..sc.contexts.len().min(3) {
+                for at in [FaultAt::Call(0), FaultAt::Byte(0), FaultAt::Call(1), FaultAt::Byte(1), FaultAt::Call(2), FaultAt::Byte(3), FaultAt::Call(5), FaultAt::Byte(9)] {
+                    for kind in [FaultKind::BrokenPipe, FaultKind::WriteZero] {
+                        let mut c = sc.clone();
+                        c.faults = FaultSpec::Explicit(vec![ExplicitFault { target: t, ctx: cx, plan: WPlan::fail(at, kind) }]);
+                        out.push(c);
+                    }
+                }
+            }
+        }
+    }
+    if let FaultSpec::Explicit(l) = &sc.faults {
+        if l.len() > 1 {
+            for i in 0..l.len() {
+                let mut c = sc.clone();
+                if let FaultSpec::Explicit(l2) = &mut c.faults {
+                    l2.remove(i);
+                }
+                out.push(c);
+            }
+        }
     }
     // shrink sources: remove chunks
     for i in 0..sc.templates.len() {
